@@ -210,10 +210,7 @@ def routed_fn(name, d, info):
     req = [
         'self.wf()',
         # C06: the backend may be touched only for safe names ("rejected ... before any backend is touched")
-        '''(%(gate)s) ==> match self.route(%(ino)s) {
-               Route::Pseudo(n) => self.root.touch_ok(),
-               Route::Backend(i, n) => self.be(i).touch_ok(),
-               Route::Vacant => true } // [C06.vfs.%(op)s.before]''' % dict(gate=gate, ino=ino, op=name),
+        '(%(gate)s) ==> self.root.touch_ok() && forall|i: u8| #[trigger] self.be(i).touch_ok() // [C06.vfs.%(op)s.before]' % dict(gate=gate, op=name),
         # C07: exactly the owning backend, with the backend's own inode number and the other arguments unchanged
         '''match self.route(%(ino)s) {
                Route::Pseudo(n) => self.root.allowed_%(op)s(%(pa)s),
@@ -375,10 +372,7 @@ impl vstd::std_specs::convert::FromSpecImpl<u64> for VfsInode {
         okres = 'res == self.root.res_%s()' % op
         bres = ('self.conv_entry(j, self.be(i).res_%s(), res)' % op) if conv else ('res == self.be(i).res_%s()' % op)
         return Fn(SYNC, SC, op, ret_name='res', sig_subst=SIGSUB, lenient_sig=True, props=['C07'], canary=True,
-                  requires=['self.wf()', '''(%s) ==> match (self.route(%s), self.route(%s)) {
-                (Route::Pseudo(a), Route::Pseudo(b)) => self.root.touch_ok(),
-                (Route::Backend(i, a), Route::Backend(j, b)) => i == j ==> self.be(i).touch_ok(),
-                _ => true } // [C06.vfs.%s.before]''' % (gate, a, b, op),
+                  requires=['self.wf()', '(%s) ==> self.root.touch_ok() && forall|i: u8| #[trigger] self.be(i).touch_ok() // [C06.vfs.%s.before]' % (gate, op),
                             '''match (self.route(%s), self.route(%s)) {
                 (Route::Pseudo(a), Route::Pseudo(b)) => self.root.allowed_%s(%s),
                 (Route::Backend(i, a), Route::Backend(j, b)) => i == j ==> self.be(i).allowed_%s(%s),
@@ -395,10 +389,7 @@ impl vstd::std_specs::convert::FromSpecImpl<u64> for VfsInode {
     routed.append(two('rename', 'olddir', 'newdir', '*ctx, a, oldname@, b, newname@, flags', '*ctx, a, oldname@, b, newname@, flags'))
     routed.append(two('link', 'inode', 'newparent', '*ctx, a, b, newname@', '*ctx, a, b, newname@', conv=True))
     routed.append(Fn(SYNC, SC, 'lookup', ret_name='res', sig_subst=SIGSUB, lenient_sig=True, props=['C07'], canary=True,
-                     requires=['self.wf()', 'self.mount_wf()', '''!has_slash(name@) ==> match self.route(parent) {
-                Route::Pseudo(n) => self.root.touch_ok(),
-                Route::Backend(i, n) => self.be(i).touch_ok(),
-                Route::Vacant => true } // [C06.vfs.lookup.before]''', '''match self.route(parent) {
+                     requires=['self.wf()', 'self.mount_wf()', '!has_slash(name@) ==> self.root.touch_ok() && forall|i: u8| #[trigger] self.be(i).touch_ok() // [C06.vfs.lookup.before]', '''match self.route(parent) {
                 Route::Pseudo(n) => self.root.allowed_lookup(*ctx, n, name@),
                 Route::Backend(i, n) => self.be(i).allowed_lookup(*ctx, n, name@),
                 Route::Vacant => true } // [C07.lookup.route]'''],
@@ -416,10 +407,7 @@ impl vstd::std_specs::convert::FromSpecImpl<u64> for VfsInode {
                      ensures=['self.pseudo_lookup_res(fs.res_lookup(), idata.sidx(), res, false) // [C07.lookup_pseudo.cross]',
                               'self.pseudo_lookup_res(fs.res_lookup(), idata.sidx(), res, true) // [C14.lookup_pseudo.ids]']))
     routed.append(Fn(SYNC, SC, 'forget', sig_subst=SIGSUB, lenient_sig=True, props=['C07'],
-                     requires=['self.wf()', '''match self.route(inode) {
-                Route::Pseudo(n) => self.root.touch_ok(),
-                Route::Backend(i, n) => self.be(i).touch_ok(),
-                Route::Vacant => true }''', '''match self.route(inode) {
+                     requires=['self.wf()', 'self.root.touch_ok() && forall|i: u8| #[trigger] self.be(i).touch_ok()', '''match self.route(inode) {
                 Route::Pseudo(n) => self.root.allowed_forget(*ctx, n, count),
                 Route::Backend(i, n) => self.be(i).allowed_forget(*ctx, n, count),
                 Route::Vacant => true } // [C07.forget.route]'''],
